@@ -177,6 +177,13 @@ func StartPFServer(ch *tubes.Reliable, forward *Forward, muxer *tubes.Muxer) {
 // The PFTube and established connections are automatically closed
 // within proxy.ReliableProxy or proxy.UnreliableProxy
 func HandlePF(ch tubes.Tube, forward *Forward) {
+	if forward == nil {
+		// The peer opened a forwarding tube although no forward is configured
+		// on this side: refuse it instead of dereferencing nil.
+		logrus.Error("PF: no forward configured for this tube")
+		ch.Close()
+		return
+	}
 	addr := forward.connect
 
 	switch addr := addr.(type) {
